@@ -1373,7 +1373,8 @@ static Janet os_execute_impl(int32_t argc, Janet *argv, JanetExecuteMode mode) {
         posix_spawn_file_actions_addclose(&actions, pipe_in);
     } else if (new_in != JANET_HANDLE_NONE && new_in != 0) {
         posix_spawn_file_actions_adddup2(&actions, new_in, 0);
-        if (new_in != new_out && new_in != new_err)
+        /* Descriptors 0-2 are the child's own standard streams: never close one of them as a leftover source */
+        if (new_in != new_out && new_in != new_err && new_in > 2)
             posix_spawn_file_actions_addclose(&actions, new_in);
     }
     if (pipe_out != JANET_HANDLE_NONE) {
@@ -1381,7 +1382,7 @@ static Janet os_execute_impl(int32_t argc, Janet *argv, JanetExecuteMode mode) {
         posix_spawn_file_actions_addclose(&actions, pipe_out);
     } else if (new_out != JANET_HANDLE_NONE && new_out != 1) {
         posix_spawn_file_actions_adddup2(&actions, new_out, 1);
-        if (new_out != new_err)
+        if (new_out != new_err && new_out > 2)
             posix_spawn_file_actions_addclose(&actions, new_out);
     }
     if (pipe_err != JANET_HANDLE_NONE) {
@@ -1389,7 +1390,8 @@ static Janet os_execute_impl(int32_t argc, Janet *argv, JanetExecuteMode mode) {
         posix_spawn_file_actions_addclose(&actions, pipe_err);
     } else if (new_err != JANET_HANDLE_NONE && new_err != 2) {
         posix_spawn_file_actions_adddup2(&actions, new_err, 2);
-        posix_spawn_file_actions_addclose(&actions, new_err);
+        if (new_err > 2)
+            posix_spawn_file_actions_addclose(&actions, new_err);
     } else if (stderr_is_stdout) {
         posix_spawn_file_actions_adddup2(&actions, 1, 2);
     }
